@@ -798,7 +798,12 @@ func (e *Evaluator) createSpeculativeObjects(specObj *Cell) (*Cell, error) {
 	}
 
 	var objToSet *Value
-	if parent.Tag == ValueNil {
+	if existing := existingContainer(parent); existing != nil {
+		// the missing parent has come into being since the placeholder was made:
+		// the right hand side of this very assignment created it, as in
+		// o.a.b = o.a.c = 1
+		objToSet = existing
+	} else if parent.Tag == ValueNil {
 		newParent, err := e.createSpeculativeObjects(NewCell(*parent))
 		if err != nil {
 			return nil, err
@@ -824,6 +829,37 @@ func (e *Evaluator) createSpeculativeObjects(specObj *Cell) (*Cell, error) {
 	}
 
 	return cell, nil
+}
+
+// existingContainer returns the array or object that now exists at the place
+// a placeholder for a missing member stands for, nil if there is none
+func existingContainer(placeholder *Value) *Value {
+	if placeholder.Tag != ValueNil || placeholder.ParentObj == nil {
+		return nil
+	}
+	parent := placeholder.ParentObj
+	if parent.Tag == ValueNil {
+		parent = existingContainer(parent)
+	}
+	if parent == nil || (parent.Tag != ValueObj && parent.Tag != ValueArray) {
+		return nil
+	}
+	var key Value
+	if placeholder.Str != nil {
+		key = NewString(*placeholder.Str)
+	} else if placeholder.Num != nil {
+		key = NewValue(*placeholder.Num)
+	} else {
+		return nil
+	}
+	member, err := parent.GetMember(key)
+	if err != nil || member == nil {
+		return nil
+	}
+	if member.Value.Tag != ValueObj && member.Value.Tag != ValueArray {
+		return nil
+	}
+	return &member.Value
 }
 
 func (e *Evaluator) evalAssignment(expr Expr, left *Cell, right *Cell) (*Cell, error) {
